@@ -233,12 +233,10 @@ def written(number):
     return Fraction(number)
 
 
-def multiple_of(count, unit, *like):
-    """ count * unit (exact), as a whole number when the arguments were whole numbers """
+def multiple_of(count, unit):
+    """ count * unit (exact): a whole number for a whole unit, else the nearest double """
     result = count * unit
-    if any(isinstance(x, float) for x in like) or result.denominator != 1:
-        return float(result)
-    return int(result)
+    return int(result) if unit.denominator == 1 else float(result)
 
 
 def round_in_magnitude(number, digits, up):
@@ -257,7 +255,7 @@ def round_in_magnitude(number, digits, up):
     unit = Fraction(10) ** -int(digits)
     quotient = abs(written(number)) / unit
     count = -(-quotient.numerator // quotient.denominator) if up else quotient.numerator // quotient.denominator
-    return multiple_of(count if number > 0 else -count, unit, number)
+    return multiple_of(count if number > 0 else -count, unit)
 
 
 @dispatcher.register_for('ROUNDUP')
@@ -295,14 +293,15 @@ def CEILING(number, significance=1):
         return 0
 
     positive_significance = significance > 0
-    significance = abs(significance)
-    if number >= 0:
-        return math.ceil(number / significance) * significance
+    # the quotient in exact arithmetic: in floats 1.7000000000000002 / 0.1 is 17, and whole numbers
+    # beyond 2^53 lose their units
+    unit = abs(written(significance))
+    quotient = abs(written(number)) / unit
+    if number >= 0 or not positive_significance:
+        count = -(-quotient.numerator // quotient.denominator)
     else:
-        if positive_significance:
-            return -1 * math.floor(abs(number) / significance) * significance
-        else:
-            return -1 * math.ceil(abs(number) / significance) * significance
+        count = quotient.numerator // quotient.denominator
+    return multiple_of(count if number >= 0 else -count, unit)
 
 
 @dispatcher.register_for('FLOOR', 'FLOOR.MATH', 'FLOOR.PRECISE')
@@ -317,14 +316,13 @@ def FLOOR(number, significance=1):
     if number > 0 and not significance > 0:
         return error.NUM
 
-    abs_significance = abs(significance)
-    if number >= 0:
-        return math.floor(number / abs_significance) * abs_significance
+    unit = abs(written(significance))
+    quotient = abs(written(number)) / unit  # exact, see CEILING
+    if number >= 0 or not significance > 0:
+        count = quotient.numerator // quotient.denominator
     else:
-        func = math.floor
-        if significance > 0:
-            func = math.ceil
-        return -1 * func(abs(number) / abs_significance) * abs_significance
+        count = -(-quotient.numerator // quotient.denominator)
+    return multiple_of(count if number >= 0 else -count, unit)
 
 
 @dispatcher.register_for('POWER')
